@@ -58,6 +58,7 @@ type Sched struct {
 	focus     []string
 	timeStep  time.Duration
 	maxAdv    int
+	Panics    []string // panics recovered on harness threads during this execution
 	orphans   map[string]int
 	altDesc   [][]string
 }
@@ -144,6 +145,15 @@ func (s *Sched) Go(name string, f func()) {
 		s.bind(th)
 		park(s, th, "enter", 0)
 		defer func() {
+			// a panic of the code under test on a harness thread is a finding of that schedule, not the end of the
+			// exploration (whatever the panicking call held stays held: a deadlock later in the execution is its consequence)
+			if r := recover(); r != nil && name != "SETUP" {
+				s.mu.Lock()
+				s.Panics = append(s.Panics, fmt.Sprintf("PANIC-ON-%s(%v)", name, r))
+				s.mu.Unlock()
+			} else if r != nil {
+				panic(r)
+			}
 			s.mu.Lock()
 			th.done = true
 			s.mu.Unlock()
@@ -722,6 +732,9 @@ func RunOne(t *testing.T, sc Scenario, prefix []int) (s *Sched, outcome, failure
 		if s.Dead != "" && EarlyFail != nil {
 			// if goroutines stay blocked the bubble cannot end and the process dies: report first
 			EarlyFail(Failure{Msg: s.Dead + ": " + failure, Choices: append([]int{}, s.choice...), Trace: s.Trace})
+		}
+		if len(s.Panics) > 0 {
+			failure = strings.Join(s.Panics, " ") + " " + failure
 		}
 		if s.Dead == "deadlock" && failure == "" {
 			failure = "deadlock: no enabled thread while a harness thread has not finished"
